@@ -12,6 +12,7 @@ mod rng;
 mod c15;
 mod c06;
 mod c11;
+mod c04;
 
 pub struct Budget {
     pub end: Instant,
@@ -30,6 +31,7 @@ fn run_one(pid: &str, input: &Value) -> Option<Value> {
         "C15" => c15::run(&input),
         "C06" => c06::run(&input),
         "C11" => c11::run(&input),
+        "C04" => c04::run(&input),
         _ => None,
     });
     match r {
@@ -52,13 +54,14 @@ fn gen(pid: &str, r: &mut rng::Rng) -> Option<Value> {
         "C15" => Some(c15::gen(r)),
         "C06" => Some(c06::gen(r)),
         "C11" => Some(c11::gen(r)),
+        "C04" => Some(c04::gen(r)),
         _ => None,
     }
 }
 
 /// greedy shrinking of list-shaped inputs (keys "ops", "args", "lines", "tokens"): drop one element at a time
 fn shrink(pid: &str, mut input: Value, mut detail: Value) -> (Value, Value) {
-    for key in ["ops", "args", "lines", "tokens", "calls"] {
+    for key in ["ops", "args", "lines", "tokens", "calls", "prog"] {
         if !input.get(key).map(|v| v.is_array()).unwrap_or(false) {
             continue;
         }
